@@ -32,6 +32,11 @@ func runC14(p *Program, r *Result) {
 		}
 		r.Saw(fn.String())
 		for _, ob := range p.BoundsOf(fn) {
+			if ob.Kind == "panic" && writerSide(fn) {
+				// the encrypting side is handed the caller's own plaintext and destination, not an
+				// encrypted file, a key or plugin output: its internal assertions are outside C14
+				continue
+			}
 			switch ob.Kind {
 			case "panic":
 				r.cur = "R14.1"
@@ -718,6 +723,26 @@ func pkgOfFull(full string) string {
 func funcNamed(p *Program, full string) bool {
 	for _, f := range p.Funcs {
 		if f.String() == full {
+			return true
+		}
+	}
+	return false
+}
+
+// writerSide: functions that only ever see what the encrypting caller supplies (plaintext, the
+// destination, recipients built by the program) — the STREAM writer, the armor writer, Encrypt.
+func writerSide(fn *ssa.Function) bool {
+	root := fn
+	for root.Parent() != nil {
+		root = root.Parent()
+	}
+	switch root.String() {
+	case pkgAge + ".Encrypt", pkgStream + ".NewWriter", pkgArmor + ".NewWriter":
+		return true
+	}
+	if recv := root.Signature.Recv(); recv != nil {
+		switch strings.TrimPrefix(typeString(recv.Type()), "*") {
+		case pkgStream + ".Writer", pkgArmor + ".armoredWriter":
 			return true
 		}
 	}
